@@ -294,6 +294,12 @@ class Scratch:
         for unit, obs in by_unit.items():
             info = inj["files"][unit]
             src = (KANI_DIR / f"{unit}.rs").read_text()
+            import vextract
+            for m in re.finditer(r"^//@extract (\w+)\s*$", src, re.M):
+                fn = vextract.EXTRACTORS.get(m.group(1))
+                if fn is None:
+                    raise Undecided(f"unknown extractor {m.group(1)}")
+                src = src.replace(m.group(0), fn(REPO))
             wrappers = []
             for ob in obs:
                 regions = [k["region"] for k in known if k["obligation"] == ob.id and k["record"].startswith("open:")]
@@ -306,7 +312,7 @@ class Scratch:
             (gen / f"{unit}.rs").write_text(text)
             self._append(info["file"],
                          f'\n#[cfg(any(kani, verif_replay))]\n#[path = "{gen}/{unit}.rs"]\npub(crate) mod verif_kani_{unit};\n')
-            self.modpaths[unit] = info["module"] + f"::verif_kani_{unit}"
+            self.modpaths[unit] = (info["module"] + "::" if info["module"] else "") + f"verif_kani_{unit}"
         # attribute contracts
         for ac in inj.get("attr_contracts", []):
             self._attr(ac)
